@@ -306,8 +306,50 @@ def unit_map_update(known, shape):
     return run
 
 
+class FeedModels(A.AddrModels):
+    def opaque_attr(self, ex, path, obj, name):
+        if obj.kind == 'addrmap_obj' and name == 'addr':
+            return [(path, TMap(TStr(), TOpaque('Addr')).fresh('known_names'))]
+        return A.AddrModels.opaque_attr(self, ex, path, obj, name)
+
+    def method(self, ex, path, recv, name, args, kw):
+        if isinstance(recv, VOpaque) and recv.kind == 'addrmap_obj' and name == 'update':
+            self.glog_add(path, 'map_updates', tuple(args))
+            return [(path, NONE)]
+        return A.AddrModels.method(self, ex, path, recv, name, args, kw)
+
+
+def unit_feed():
+    """TorState._addr_map: every ADDRMAP event text reaches AddrMap.update, once, unchanged (CACHED or not)"""
+    def run(ctx):
+        ctx.fn('txtorcon.torstate', 'TorState._addr_map')
+        import txtorcon.torstate as ts
+        ex = ctx.ex
+        path = ctx.new_path()
+        st = ex.new_inst(path, ts.TorState)
+        path.heap[('f', st.oid, 'addrmap')] = VOpaque('addrmap_obj', 1)
+        text = z3.String('event_text')
+        ctx.input('event_text', VStr(text))
+        ctx.cover('pre_satisfiable', path)
+        ctx.cover('pre_cached', path, z3.Contains(text, mk_str('CACHED="YES"')))
+        g = ex.getattr_v(path, st, '_addr_map')
+        for p, r in ex.call(g[0][0], g[0][1], [VStr(text)], {}):
+            if isinstance(r, Raise):
+                ctx.oblige('no_exception', p, B(False))
+                continue
+            ups = ctx.models.glog(p, 'map_updates')
+            ok = len(ups) == 1 and len(ups[0]) == 1 and isinstance(ups[0][0], VStr)
+            ctx.oblige('post.every_event_reaches_the_address_map_once_unchanged', p, zand(B(ok), ups[0][0].t == text) if ok else B(False),
+                       clause="a later event for the same name moves expiry to the new time (Tor's most recent mapping counts, cached or not)")
+    return run
+
+
+def make_models_for(unit_name):
+    return FeedModels() if '_addr_map' in unit_name else A.AddrModels()
+
+
 def units():
-    out = []
+    out = [('C20/TorState._addr_map', unit_feed())]
     for known in (True, False):
         for shape in ('plain', 'utc'):
             out.append(('C20/AddrMap.update@%s/%s' % ('known' if known else 'new', shape), unit_map_update(known, shape)))
